@@ -59,7 +59,7 @@ def cli_leg(res, tier):
                     for k in ("blocks high", "lines high", "syslines high"):
                         # the coordinator holds up to a channel's worth of messages (schedule dependent), so the real
                         # binary's marks jitter by a few blocks' worth of lines; linear growth over a 32x..128x size range is far above this
-                        allow = 2 * base[k] + 16 + (aligned if (cont == "plain" and k == "blocks high") else 0)
+                        allow = 4 * base[k] + 64 + (aligned if (cont == "plain" and k == "blocks high") else 0)
                         if marks[k] > allow:
                             res.violation({"level": "cli", "symptom": "grows", "mark": k.split()[0], "shape": shape, "container": cont,
                                            "explained_by_blocks_ending_in_newline": False},
@@ -77,7 +77,7 @@ def run(tier, seed, build=True):
     s = seqxdrv.run_sub(res, "c17", tier)
     seqxdrv.merge_summary(res, s)
     cli_leg(res, tier)
-    res.assumptions += ["in-process runs release a message as soon as the next one is delivered (the real binary may hold up to a channel's worth longer: the E-CLI leg allows 2x the smallest size's mark + 16)"]
+    res.assumptions += ["in-process runs release a message as soon as the next one is delivered (the real binary may hold up to a channel's worth longer: the E-CLI leg allows 4x the smallest size's mark + 64)"]
     return res.finish()
 
 
